@@ -24,7 +24,7 @@ cfg("rad_q", Systems='= {"zero", "feed", "zero2"}', KTimes='= {"min", "h"}', KCo
 cfg("laws_t", Systems="<- Sys_laws", KTimes="<- KT_two", KConcs="<- KC_two", CPlans='= {1}', Laws='= {"arrhenius", "eyring", "alt", "hs"}',
     Modes='= {"inline", "named", "subs", "mixed"}', KRegs="<- KRegs6", TSources='= {"param", "subs", "ramp"}', Outs="<- Outs_one")
 cfg("subs_t", Modes='= {"subs", "mixed"}')
-cfg("rates_t", Systems="<- Sys_all", KTimes="<- KT_all", KConcs="<- KC_all", CPlans="<- Plans_t", TUnits='= {"s"}',
+cfg("rates_t", Systems="<- Sys_all", KTimes="<- KT_two", KConcs="<- KC_all", CPlans="<- Plans_t", TUnits='= {"s"}',
     KRegs="<- KRegs6", Outs="<- Outs_one")
 cfg("regs_t", Systems='= {"bi", "chain"}', KTimes='= {"h"}', KConcs='= {"uM"}', CPlans='= {1}', KRegs="<- KRegs108", Outs="<- Outs_three",
     TUnits='= {"ms", "h"}')
